@@ -39,6 +39,9 @@ def isa_base(rng, de):
                                    'm_df': {'type': 'deferred_numeric', 'bytecode': {'value': 2, 'size': 2}, 'argument': {'size': 16, 'byte_align': True}}}},
         'rel8e': {'operand_values': {'rl8e': {'type': 'relative_address', 'argument': {'size': 8, 'byte_align': True, 'min': -100, 'max': 100},
                                               'offset_from_instruction_end': True}}},
+        # register + offset between brackets: @REG is the register, @ARG the offset expression
+        'ixr': {'operand_values': {f'x_{r}': {'type': 'indirect_register', 'register': r, 'bytecode': {'value': i + 1, 'size': 2},
+                                              'offset': {'size': 8, 'byte_align': True}} for i, r in enumerate(['sp', 'a'])}},
     }
     A8 = {'n': 8, 'align': True, 'little': little}
     A8u = {'n': 8, 'align': False, 'little': little}
@@ -55,10 +58,13 @@ def isa_base(rng, de):
         'mem': [{'id': 'm_in', 't': 'indirect_numeric', 'code': {'v': 1, 'n': 2}, 'arg': A16},
                 {'id': 'm_df', 't': 'deferred_numeric', 'code': {'v': 2, 'n': 2}, 'arg': A16}],
         'rel8e': [{'id': 'rl8e', 't': 'relative_address', 'arg': A8, 'min': -100, 'max': 100, 'fromEnd': True}],
+        'ixr': [{'id': f'x_{r}', 't': 'indirect_register', 'r': r, 'code': {'v': i + 1, 'n': 2}, 'offset': A8}
+                for i, r in enumerate(['sp', 'a'])],
     }
     defs = [('nop', 0xEA, 8, []), ('ldn', 0x3, 4, ['imm8u']), ('ldi', 0x11, 8, ['regs', 'imm8']), ('ldw', 0x22, 8, ['imm16']),
             ('jr', 0x40, 8, ['rel8']), ('jre', 0x41, 8, ['rel8e']), ('st', 0x50, 8, ['ind16']), ('inc', 0x7, 6, ['regs']),
-            ('mv', 0x9, 4, ['regs', 'regs']), ('ldd', 0x60, 8, ['def16']), ('lda', 0x2A, 6, ['mem'])]
+            ('mv', 0x9, 4, ['regs', 'regs']), ('ldd', 0x60, 8, ['def16']), ('lda', 0x2A, 6, ['mem']),
+            ('ldx', 0x2B, 6, ['ixr'])]
     instrs_y, instrs_m = {}, []
     for mn, opc, n, sets in defs:
         y = {'bytecode': {'value': opc, 'size': n}}
@@ -86,6 +92,17 @@ def steps_for(rng, kinds):
                     (f'ldw {A}', {'mn': 'ldw', 'ops': [{'t': 'arg', 'n': n}]}),
                     (f'st [{A}]', {'mn': 'st', 'ops': [{'t': 'indArg', 'n': n}]}),
                     (f'lda [{A}]', {'mn': 'lda', 'ops': [{'t': 'indArg', 'n': n}]})]
+            continue
+        if k == 'ixr':
+            # `[reg + offset]`: the operand as a whole, its register, its offset - the offset also as the right-hand
+            # operand of a product (the substitution is textual: `2*@ARG(n)` with the offset text `3` is `2*3`)
+            cat += [(f'ldx {O}', {'mn': 'ldx', 'ops': [{'t': 'op', 'n': n}]}),
+                    (f'ldx [{R} + 2*{A}]', {'mn': 'ldx', 'ops': [{'t': 'indRegArgMul', 'n': n, 'k': 2}]}),
+                    (f'ldx [{R} + 3 * {A}]', {'mn': 'ldx', 'ops': [{'t': 'indRegArgMul', 'n': n, 'k': 3}]}),
+                    (f'ldx [{R}+1*{A}]', {'mn': 'ldx', 'ops': [{'t': 'indRegArgMul', 'n': n, 'k': 1}]}),
+                    (f'ldw {A}', {'mn': 'ldw', 'ops': [{'t': 'arg', 'n': n}]}),
+                    (f'ldn {A}', {'mn': 'ldn', 'ops': [{'t': 'arg', 'n': n}]}),
+                    (f'inc {R}', {'mn': 'inc', 'ops': [{'t': 'reg', 'n': n}]})]
             continue
         if k in ('num', 'ind'):
             cat += [(f'ldw {A}', {'mn': 'ldw', 'ops': [{'t': 'arg', 'n': n}]}),
@@ -125,12 +142,12 @@ def gen_case(rng, tier):
     if overlap:
         nvar = rng.choice([2, 3])
     for vi in range(nvar):
-        kinds = [rng.choice(['num', 'reg', 'ind', 'num', 'reg', 'ind', 'def']) for _ in range(rng.choice([0, 1, 1, 2]))]
+        kinds = [rng.choice(['num', 'reg', 'ind', 'num', 'reg', 'ind', 'def', 'ixr']) for _ in range(rng.choice([0, 1, 1, 2]))]
         if overlap:
             # a special case first (register a only), the general form (any register) after it: which one an invocation
             # gets depends on the definition order only, never on what was invoked before
             kinds = [['rega'], ['reg'], ['num']][vi]
-        sets = [{'num': 'imm16', 'reg': 'regs', 'ind': 'ind16', 'rega': 'rega', 'def': 'def16'}[k] for k in kinds]
+        sets = [{'num': 'imm16', 'reg': 'regs', 'ind': 'ind16', 'rega': 'rega', 'def': 'def16', 'ixr': 'ixr'}[k] for k in kinds]
         steps = steps_for(rng, ['reg' if k == 'rega' else k for k in kinds])
         y = {'instructions': [t for t, _ in steps]}
         m = {'operands': {'opcode': {'v': 0, 'n': 1}}, 'steps': [s for _, s in steps]}
@@ -157,7 +174,8 @@ def gen_case(rng, tier):
     isa = {'description': 'c10', 'general': {'address_size': 16, 'endian': de, 'registers': REGS}, 'operand_sets': osets,
            'instructions': instrs_y, 'macros': {'mac': mac_y}}
     # labels are case sensitive, mnemonics and registers are not: `Kone` / `KTWO` are different constants
-    consts = {'kone': rng.randint(0, 200), 'ktwo': rng.randint(0, 60000), 'Kone': rng.randint(0, 200), 'KTWO': rng.randint(0, 60000)}
+    consts = {'kone': rng.randint(0, 200), 'ktwo': rng.randint(0, 60000), 'Kone': rng.randint(0, 200), 'KTWO': rng.randint(0, 60000),
+              'kix': rng.randint(0, 40)}
     twin = rng.random() < 0.3
     base = rng.choice([0, 0, 16, 300])
     pre = rng.randint(0, 3)
@@ -166,7 +184,7 @@ def gen_case(rng, tier):
         twin = False
     for _ in range(2 if (twin or overlap) else rng.choice([1, 1, 2])):
         kinds = rng.choice(var_kinds)
-        forms, texts = [], []
+        forms, texts, over = [], [], {}
         if overlap:
             r = gen.rcase(rng, rng.choice(['b', 'sp', 'a'] if not invs else ['a', 'a', 'b']))
             invs.append({'forms': [{'f': 'plain', 'e': ('label', r)}], 'texts': [r]})
@@ -186,19 +204,27 @@ def gen_case(rng, tier):
                 else:
                     forms.append(f)
                     texts.append(t if not t.startswith('[') else '[ ' + t[1:-1] + ' ]')
-            invs.append({'forms': forms, 'texts': texts})
+            invs.append({'forms': forms, 'texts': texts, 'over': first.get('over', {})})
             continue
         for pos, k in enumerate(kinds):
             if k in ('reg', 'rega'):
                 r = gen.rcase(rng, 'a' if k == 'rega' else rng.choice(REGS))
                 forms.append({'f': 'plain', 'e': ('label', r)})
                 texts.append(r)
+            elif k == 'ixr':
+                r = gen.rcase(rng, rng.choice(['sp', 'a']))
+                atom = rng.choice([('num', rng.choice([0, 1, 3, 5, 20, 40])), ('label', 'kix')])
+                sp_ = rng.choice(['', ' '])
+                forms.append({'f': 'ind', 'e': ('bin', '+', ('label', r), atom)})
+                texts.append(f'[{r}{sp_}+{sp_}{atom[1]}]')
+                over.setdefault('arg', {})[pos] = str(atom[1])
+                over.setdefault('reg', {})[pos] = r.lower()
             else:
                 atom = rng.choice([('num', rng.choice([0, 1, 5, 77, 255, 300, 4000])), ('label', 'kone'), ('label', 'ktwo'),
                                    ('label', 'start'), ('label', 'after'), ('label', 'fwd'),
                                    ('label', 'kone')] +
                                   # a character literal is an operand text too (not inside [ ]: the bracket pattern admits no quote)
-                                  ([('char', rng.choice(['@', '@', 'A', '#', '(', '$']))] * 2 if k == 'num' else []))
+                                  ([('char', rng.choice(['@', '@', '@', 'A', '#', '(', '$']))] * 4 if k == 'num' else []))
                 if atom[0] == 'char' and any(f'[@ARG({pos})' in t for y in mac_y for t in y['instructions']):
                     atom = ('num', ord(atom[1]))       # a step would put the literal inside [ ]
                 if twin and rng.random() < 0.7:
@@ -215,7 +241,7 @@ def gen_case(rng, tier):
                     texts.append(t)
         if rng.random() < 0.05 and forms:
             forms.pop(); texts.pop()
-        invs.append({'forms': forms, 'texts': texts})
+        invs.append({'forms': forms, 'texts': texts, 'over': over})
     return {'isa': isa, 'consts': consts, 'base': base, 'pre': pre, 'invs': invs, 'twin': twin, 'overlap': overlap,
             'model_base': {'op': 'macro', 'regs': REGS, 'gs': 0, 'ge': 65535, 'instrs': instrs_m, 'macro': mac_m},
             'templates': [[t for t in y['instructions']] for y in mac_y], 'seed': rng.randrange(1 << 30)}
@@ -273,8 +299,11 @@ def expand_text(case, inv, variant):
     out = []
     for tpl in case['templates'][variant]:
         s = tpl
+        over = inv.get('over') or {}
         for n, t in enumerate(inv['texts']):
-            s = s.replace(f'@ARG({n})', arg_text(t)).replace(f'@REG({n})', t.strip().lower()).replace(f'@OP({n})', t)
+            a = (over.get('arg') or {}).get(n, (over.get('arg') or {}).get(str(n), arg_text(t)))
+            r = (over.get('reg') or {}).get(n, (over.get('reg') or {}).get(str(n), t.strip().lower()))
+            s = s.replace(f'@ARG({n})', a).replace(f'@REG({n})', r).replace(f'@OP({n})', t)
         out.append(s)
     return out
 
